@@ -141,3 +141,31 @@ def add_streams(rng, prog, n_draw=6):
             prog["handlers"][child] = [["drawrel", rng.choice(["s1", "s2"]), d[0], d[1], 5, child + "x"]]
             prog["handlers"][child + "x"] = [["drawrel", "s1", "DistExponential", [1.0], 5, child + "y"]]
     return prog
+
+
+def add_fanout(rng, prog):
+    """several listeners per event type whose scripts draw from shared streams and schedule events"""
+    if "streams" not in prog:
+        prog["streams"] = [{"name": "s1", "seed": rng.randint(1, 10 ** 6)}, {"name": "s2", "seed": rng.randint(1, 10 ** 6)}]
+    fan = {}
+    for tname in ["A", "B"][:rng.randint(1, 2)]:
+        ls = []
+        for k in range(rng.randint(2, 4)):
+            script = []
+            for _ in range(rng.randint(1, 2)):
+                r = rng.random()
+                if r < 0.5:
+                    script.append(["draw", rng.choice(["s1", "s2"])])
+                else:
+                    script.append(["schedrel", rng.choice(["s1", "s2"]), rng.choice([1, 5, 5, 9])])
+            ls.append({"name": f"L{tname}{k}", "script": script})
+        fan[tname] = ls
+    prog["fanout"] = fan
+    n = 0
+    for tag, acts in prog["handlers"].items():
+        if rng.random() < 0.5 and n < 8:
+            acts.insert(rng.randrange(len(acts) + 1), ["fanfire", rng.choice(list(fan))])
+            n += 1
+    if n == 0 and prog["handlers"]:
+        next(iter(prog["handlers"].values())).append(["fanfire", next(iter(fan))])
+    return prog
